@@ -39,7 +39,7 @@ impl C19Env {
             "e_none".to_string(),
             ServerEndpoint::new_none("/", &[ANONYMOUS_USER_TOKEN_ID.to_string(), "u_alice".to_string()]),
         );
-        let env = Env::new(EnvSpec { tag: format!("c19_{}", tag), user_tokens, endpoints, clients_can_modify_address_space: true })?;
+        let env = Env::new(EnvSpec { tag: format!("c19_{}", tag), user_tokens, endpoints, clients_can_modify_address_space: true, own_identity: true })?;
         let (ns, var, folder) = {
             let mut a = env.aspace.write();
             let ns = a.register_namespace("urn:verif:sess").map_err(|_| "register_namespace".to_string())?;
